@@ -26,6 +26,22 @@ CLAIMED = {
              text="Generated-input search over small machines (guarded branches with overlaps, loops that make progress, array-pattern states) and inputs; the visited state sequence reconstructed from trace events must equal the simulated one; ill-formed machines must be rejected and non-terminating ones stopped by the limit."),
  "C18": dict(tech="proptest-generated table pairs (0-2 shared columns, duplicate keys, five column kinds) x six joins in symbol and word form vs reference relational algebra compared as multisets; row/column selection in order", sec="§3 C18",
              text="Generated-input search over table pairs with many-to-many matches; the join result is compared as a multiset of rows over the union of columns including optional-kind promotion and holes; row selection compared in order."),
+ "C02": dict(tech="grammar-generated formulas over all precedence tiers (ASCII and Unicode spellings, unary minus/not, redundant parentheses, matrix operands) vs a reference parser built from the specified tiers; tree shape and evaluated value compared; metamorphic parenthesisation", sec="§3 C02",
+             text="Generated-input search over formulas mixing every operator tier; the parse tree's grouping is compared with a reference precedence-climbing parser and the value with the fully parenthesised form."),
+ "C06": dict(tech="shared typed program generator (progs.rs) -> interpret vs compile -> serialise -> load -> run in a fresh interpreter; differential oracle on result and every symbol; culprit-feature localisation for signatures", sec="§3 C06",
+             text="Differential generated-input search: programs from a typed constructive generator are run directly and through the bytecode route; results, symbol tables and mutability must agree; compile/load failures on supported features are violations keyed by the feature that causes them."),
+ "C07": dict(tech="generated programs -> compiled images; structure-aware mutation (header fields, section offsets/sizes, const blob words, chunk swaps, truncation, CRC re-sealing) + byte-level bursts; oracle: intact image round-trips, damaged image is rejected or loads to the same program, never panics/hangs/over-allocates", sec="§3 C07",
+             text="Fault-injection search over serialised programs: every mutant must be rejected with an error or decode to a program equal to the original; panics, watchdog overruns and allocation beyond the address-space cap are violations."),
+ "C08": dict(tech="every suite program (642) and .mec file (168) + 40-construct grammar generator + typed program generator; round-trip oracle parse -> format -> parse with trees compared modulo source ranges/whitespace tokens, idempotence of format", sec="§3 C08",
+             text="Round-trip generated-input search over the whole grammar and the repository's own corpus; any formatted text that fails to parse, parses to a different tree, or changes when formatted again is a violation, localised to the emitter at fault."),
+ "C09": dict(tech="token-alphabet strings, Unicode stress strings, token-level mutants and character prefixes of valid programs/documents; validity predicate: no panic, tree or located report, ranges inside the input, format_error total, identical outcome on re-parse from another working directory; per-case watchdog", sec="§3 C09",
+             text="Generated-input search over malformed and adversarial text with a validity predicate on the outcome; panics (with source location as signature), uninitialised/out-of-input ranges, non-determinism are violations; budget overruns are counted as timeouts, never judged."),
+ "C10": dict(tech="programs from the shared generator woven into Mechdown documents (pre-screened prose elements, unnamed/named/disabled fences); metamorphic oracle: document snapshot == code-only snapshot; per-namespace isolation; error containment", sec="§3 C10",
+             text="Metamorphic generated-input search: prose that is prose on its own, woven between code, must not change what the code computes; named fences evaluate in isolated interpreters; an error inside a named fence stays inside."),
+ "C19": dict(tech="typed program generator; determinism (fresh interpreters, sibling thread), step() idempotence on pure programs, re-evaluation after input change vs from-scratch run; plan-step localisation for signatures", sec="§3 C19",
+             text="Generated-input search over programs and re-evaluation schedules: the same program gives the same values in fresh interpreters, re-running the plan of a pure program changes nothing, and results after an input change equal a from-scratch evaluation."),
+ "C20": dict(tech="generated include trees (4 files, 3 directories, every edge subset over 3 files as fixed cases, fences of varying marker/length/indent, look-alikes, missing targets, trailing-newline variants) materialised on disk vs a reference expander working on the item lists; watchdog for termination", sec="§3 C20",
+             text="Generated-input search over include graphs and file layouts against a reference textual-substitution model; wrong expansion, undetected or falsely reported cycles, misnamed missing files, panics and hangs are violations."),
 }
 ALL = ["C%02d" % i for i in range(1, 21)]
 checks = []
@@ -38,7 +54,7 @@ for pid in ALL:
       "thorough_cmd": "./check %s thorough" % pid,
       "evidence_file": "/verif/evidence/%s.json" % pid,
       "replay_cmd_template": "./check replay {path}",
-      "engine": "mechcheck",
+      "engine": "mechfscheck" if pid == "C20" else "mechcheck",
       "level_claimed": {"category": "exploration", "text": c["text"], "design_ref": c["sec"]},
       "level_note": "Trusted base: the harness-side reference model and the observation layer (engine/mechcheck/src/{rval,mech}.rs); harness profile = dev profile semantics (debug assertions + overflow checks on), dynamic storage forms only. Absence is never established: evidence reports what was generated.",
       "technique": c["tech"],
@@ -47,7 +63,7 @@ m = {
  "version": 1,
  "setup_cmd": "./check build",
  "hooks": {"guard": "mech_verif", "enable": "no source hooks are used; checks build /repo's crates unmodified through path dependencies (engine/Cargo.toml)", "baseline_off_cmd": "cd /repo && cargo test --workspace --no-fail-fast --offline", "source_commits": [], "add_only": True},
- "engines": [{"name": "mechcheck", "path": "engine/mechcheck", "serves_properties": sorted(CLAIMED), "kind_free_text": "Rust harness: proptest strategies + shrinking, crash-isolated worker processes under a supervisor with watchdog, reference models, known-finding keyed signatures, replay files"}],
+ "engines": [{"name": "mechfscheck", "path": "engine/mechfscheck", "serves_properties": ["C20"], "kind_free_text": "same engine (engine.rs included by path) in a separate binary that links the root `mech` crate for read_mech_source_file"}, {"name": "mechcheck", "path": "engine/mechcheck", "serves_properties": sorted(p for p in CLAIMED if p != "C20"), "kind_free_text": "Rust harness: proptest strategies + shrinking, crash-isolated worker processes under a supervisor with watchdog, reference models, known-finding keyed signatures, replay files"}],
  "checks": checks,
  "not_applicable": [{"property_id": p, "reason": "check not built yet in this session (planned: see DESIGN.md §3); not a claim that the technique cannot apply"} for p in ALL if p not in CLAIMED],
  "notes": "All checks: exit 0 = held on everything explored; exit 1 + VIOLATION line = unknown violation; exit 2 = inconclusive (harness error / crash outside judged domain / >1% timeouts); exit 3 = build failure. Known findings: known_findings.json.",
